@@ -21,8 +21,13 @@ def witness(label, failure, seed):
     return tracks_witness("C03", label, failure, seed)
 
 
-def bounded(tier, seed):
+def _bounded(tier, seed):
     from pyvc.native_bridge import bounded_walk
     return [bounded_walk(tier, "queries", "track-neighbour-queries",
                          "real get_track_neighbors/has_track_id_at_time (whose contracts the proofs of UserAddNode/UserDeleteNode use) vs a scan "
                          "of the graph, on canonical and time-reversed node numberings and with the lookup lists in every order")]
+
+
+def bounded(tier, seed):
+    from ._common import model_checks
+    return _bounded(tier, seed) + model_checks(tier, "networkx", shape=True, seed=seed)
